@@ -6,8 +6,8 @@ CONSTANTS
   TokAt <- MC_PermQ_At
   PolSeq <- MC_Pol6x2
   RegisterFirst = FALSE
-  MinN = 0
-  MaxN = 3
+  MinN = 4
+  MaxN = 4
   Export = TRUE
   CheckRekeyDirect = TRUE
   None = None
